@@ -557,10 +557,50 @@ DIRECTED = [
 ]
 
 
+def judge_empty_value(ctx, case):
+    """A token whose embedded value is the empty text ('hex=', 'bin:0=') is that token with the empty value, not a token waiting for a value."""
+    name, sized, ws = case['name'], case['sized'], case['ws']
+    tok = f'{name}:0' if sized else name
+    emb = f'{tok} = ' if ws else f'{tok}='
+    with util.options(lsb0=False):
+        for ctxname, fmt_e, fmt_s, vals_e, vals_s, exp in (
+                ('alone', emb, tok, [], [''], ''),
+                ('first', f'{emb}, uint:4', f'{tok}, uint:4', [9], ['', 9], '1001'),
+                ('last', f'uint:4, {emb}', f'uint:4, {tok}', [9], [9, ''], '1001'),
+                ('middle', f'uint:4=9, {emb}, 0b1', f'uint:4=9, {tok}, 0b1', [], [''], '10011'),
+                ('in-brackets', f'2*(bool, {emb})', f'2*(bool, {tok})', [True, False], [True, '', False, ''], '10')):
+            g1 = call(lambda: B(pack(fmt_e, *vals_e)))
+            g2 = call(lambda: B(pack(fmt_s, *vals_s)))
+            ctx.op('empty-embedded-value:pack', 'ok' if g1[0] == 'ok' else type(g1[1]).__name__)
+            if g1 != ('ok', exp) or g2 != ('ok', exp):
+                ctx.mismatch(f'C05|empty-embedded-value|pack,{ctxname}|{shape(g1 if g1 != ("ok", exp) else g2, False)}', case,
+                             f'pack({fmt_e!r}, *{vals_e}) -> {g1[1]!s:.60}; pack({fmt_s!r}, *{vals_s}) -> {g2[1]!s:.60}; expected {exp!r}')
+            else:
+                ctx.ok(('empty-value', 'pack', ctxname, name, sized), True)
+            # one value too many is still one too many
+            g3 = call(lambda: B(pack(fmt_e, *vals_e, '0xf')))
+            ctx.op('pack-too-many', 'ok' if g3[0] == 'ok' else type(g3[1]).__name__)
+            if g3[0] == 'ok' or not exc_matches(g3[1], 'ValueError'):
+                ctx.mismatch(f'C05|empty-embedded-value|pack-too-many,{ctxname}|{shape(g3, True)}', case, f'pack({fmt_e!r}, *{vals_e}, "0xf") -> {g3[1]!s:.60}')
+            else:
+                ctx.ok(('empty-value', 'too-many', ctxname, name, sized), True)
+            if not vals_e:
+                g4 = call(lambda: B(Bits(fmt_e)))
+                ctx.op('empty-embedded-value:ctor', 'ok' if g4[0] == 'ok' else type(g4[1]).__name__)
+                if g4 != ('ok', exp):
+                    ctx.mismatch(f'C05|empty-embedded-value|ctor,{ctxname}|{shape(g4, False)}', case, f'Bits({fmt_e!r}) -> {g4[1]!s:.60} expected {exp!r}')
+                else:
+                    ctx.ok(('empty-value', 'ctor', ctxname, name, sized), True)
+
+
 def run(ctx):
     if ctx.shard == 0:
         for c in DIRECTED:
             ctx.run_case(judge, c)
+        for name in ('hex', 'bin', 'oct', 'bits'):
+            for sized in (True, False):
+                for ws in (False, True):
+                    ctx.run_case(judge_empty_value, {'empty_value': True, 'name': name, 'sized': sized, 'ws': ws})
     n = ctx.scale(36000, 600000)
     for i in range(n):
         c = gen_case(ctx)
@@ -570,6 +610,8 @@ def run(ctx):
 
 
 def replay(ctx, case):
+    if case.get('empty_value'):
+        return ctx.run_case(judge_empty_value, case)
     case = dict(case)
     case['fmt'] = None
     ctx.run_case(judge, case)
